@@ -26,3 +26,26 @@ package symbols
 //@   loop 1 invariant 0 <= i && i <= sym.Arity && len(bounds) == sym.Arity
 //@   loop 2 invariant -1 <= rangeindex && len(boundInfos) == len(decl.Bounds) && declsOK(d.decls) && sym in d.decls && decl == d.decls[sym]
 //@   loop 3 invariant -1 <= rangeindex && len(boundInfos) == len(decl.Bounds) && declsOK(d.decls) && sym in d.decls && decl == d.decls[sym] && boundInfo != nil && len(boundInfo.bounds) == sym.Arity && boundDecl == decl.Bounds[rangeindex]
+
+// ---- C12: membership in base types ---------------------------------------------------------------------
+// The base type constants are distinct names (set by package ast's init).
+//@ spec func basesDistinct() bool =
+//@      ast.AnyBound != ast.Float64Bound && ast.AnyBound != ast.NameBound && ast.AnyBound != ast.NumberBound && ast.AnyBound != ast.StringBound && ast.AnyBound != ast.BytesBound && ast.AnyBound != ast.TimeBound && ast.AnyBound != ast.DurationBound
+//@      && ast.Float64Bound != ast.NameBound && ast.Float64Bound != ast.NumberBound && ast.Float64Bound != ast.StringBound && ast.Float64Bound != ast.BytesBound && ast.Float64Bound != ast.TimeBound && ast.Float64Bound != ast.DurationBound
+//@      && ast.NameBound != ast.NumberBound && ast.NameBound != ast.StringBound && ast.NameBound != ast.BytesBound && ast.NameBound != ast.TimeBound && ast.NameBound != ast.DurationBound
+//@      && ast.NumberBound != ast.StringBound && ast.NumberBound != ast.BytesBound && ast.NumberBound != ast.TimeBound && ast.NumberBound != ast.DurationBound
+//@      && ast.StringBound != ast.BytesBound && ast.StringBound != ast.TimeBound && ast.StringBound != ast.DurationBound
+//@      && ast.BytesBound != ast.TimeBound && ast.BytesBound != ast.DurationBound && ast.TimeBound != ast.DurationBound
+
+// Each documented base type has exactly the constants of its kind as members.
+//@ func hasBaseType(typeExpr, c)
+//@   requires basesDistinct()
+//@   modifies nothing
+//@   ensures typeExpr == ast.AnyBound ==> result
+//@   ensures typeExpr == ast.Float64Bound ==> result == (c.Type == ast.Float64Type)
+//@   ensures typeExpr == ast.NameBound ==> result == (c.Type == ast.NameType)
+//@   ensures typeExpr == ast.NumberBound ==> result == (c.Type == ast.NumberType)
+//@   ensures typeExpr == ast.StringBound ==> result == (c.Type == ast.StringType)
+//@   ensures typeExpr == ast.BytesBound ==> result == (c.Type == ast.BytesType)
+//@   ensures typeExpr == ast.TimeBound ==> result == (c.Type == ast.TimeType)
+//@   ensures typeExpr == ast.DurationBound ==> result == (c.Type == ast.DurationType)
